@@ -1,21 +1,21 @@
 #!/bin/bash
-# usage: tools/verify_seed.sh <ID> <k>   -- verifies /tmp/mut_out/<ID>/patch<k>.diff + demo<k>.py in a scratch worktree
-# and, if all claims hold, stores it as /verif/seeded/<ID>-<k>/
-ID=$1; K=$2; SRC=/tmp/mut_out/$ID; WT=/tmp/seedwt_$ID_$K_$$
+# usage: tools/verify_seed.sh <ID> <k> [srcdir] [destk]  -- verifies <srcdir>/patch<k>.diff + demo<k>.py (default /tmp/mut_out/<ID>) in a
+# scratch worktree and, if all claims hold, stores it as /verif/seeded/<ID>-<destk>/
+ID=$1; K=$2; SRC=${3:-/tmp/mut_out/$ID}; DK=${4:-$K}; WT=/tmp/seedwt_${ID}_${DK}_$$
 git -C /repo worktree add -q --detach $WT HEAD || exit 2
 cd $WT
 run() { PYTHONPATH=$WT timeout 600 /venv/bin/python "$@"; }
-run $SRC/demo$K.py > /tmp/seed_$ID_$K.base.log 2>&1; BASE=$?
-if ! git apply --check $SRC/patch$K.diff 2>/dev/null; then echo "$ID-$K: patch does not apply"; git -C /repo worktree remove --force $WT; exit 3; fi
+run $SRC/demo$K.py > /tmp/seed_${ID}_${DK}.base.log 2>&1; BASE=$?
+if ! git apply --check $SRC/patch$K.diff 2>/dev/null; then echo "$ID-$DK: patch does not apply"; git -C /repo worktree remove --force $WT; exit 3; fi
 git apply $SRC/patch$K.diff
-run $SRC/demo$K.py > /tmp/seed_$ID_$K.mut.log 2>&1; MUT=$?
-PYTHONPATH=$WT timeout 900 /venv/bin/python -m pytest -q -p no:cacheprovider --timeout=900 tests 2>&1 | grep -E "^(FAILED|ERROR)|passed|failed" | sort > /tmp/seed_$ID_$K.tests.log
-NPASS=$(grep -oE "[0-9]+ passed" /tmp/seed_$ID_$K.tests.log | grep -oE "[0-9]+")
-NFAIL=$(grep -c "^FAILED" /tmp/seed_$ID_$K.tests.log)
+run $SRC/demo$K.py > /tmp/seed_${ID}_${DK}.mut.log 2>&1; MUT=$?
+PYTHONPATH=$WT timeout 900 /venv/bin/python -m pytest -q -p no:cacheprovider --timeout=900 tests 2>&1 | grep -E "^(FAILED|ERROR)|passed|failed" | sort > /tmp/seed_${ID}_${DK}.tests.log
+NPASS=$(grep -oE "[0-9]+ passed" /tmp/seed_${ID}_${DK}.tests.log | grep -oE "[0-9]+")
+NFAIL=$(grep -c "^FAILED" /tmp/seed_${ID}_${DK}.tests.log)
 cd /; git -C /repo worktree remove --force $WT
-echo "$ID-$K: demo base=$BASE mutated=$MUT tests passed=$NPASS failed=$NFAIL"
+echo "$ID-$DK: demo base=$BASE mutated=$MUT tests passed=$NPASS failed=$NFAIL"
 if [ "$BASE" = "0" ] && [ "$MUT" != "0" ] && [ "$NPASS" -ge 85 ] && [ "$NFAIL" -le 7 ]; then
-  D=/verif/seeded/$ID-$K; mkdir -p $D
+  D=/verif/seeded/$ID-$DK; mkdir -p $D
   cp $SRC/patch$K.diff $D/patch.diff; cp $SRC/demo$K.py $D/demo.py; cp $SRC/notes$K.md $D/notes.md 2>/dev/null
   python3 - <<PY
 import json
@@ -26,5 +26,5 @@ json.dump({"property":"$ID","source":"independent sub-agent given only the prope
 PY
   echo "  stored $D"
 else
-  echo "  NOT stored"; tail -3 /tmp/seed_$ID_$K.mut.log
+  echo "  NOT stored"; tail -3 /tmp/seed_${ID}_${DK}.mut.log
 fi
